@@ -396,12 +396,16 @@ def run_diag(case, r, rng):
             j = tuple(idx[i] if i in S else 0 for i in range(d))
             want[idx + j] = x[idx]
         cls = 'size1' if any(rows[i] == 1 for i in S) else 'general'
-        with r.op('diag:%s:call' % cls):
-            T = A.diag(list(S))
+        variants = [list(S)]
+        if S:
+            variants.append([i - d if i == max(S) else i for i in S])         # the last listed core addressed from the end
+        for dl in variants:
+          with r.op('diag:%s:call' % cls):
+            T = A.diag(list(dl))
             mp = meta_problem(T)
             if r.true('diag:%s:meta' % cls, mp is None, mp):
                 r.true('diag:%s:dims' % cls, list(T.row_dims) == list(rows) and list(T.col_dims) == cols,
-                       'dims %s %s' % (T.row_dims, T.col_dims))
+                       'diag_list %s: dims %s %s' % (dl, T.row_dims, T.col_dims))
                 if list(T.col_dims) == cols:
                     r.close('diag:%s:value' % cls, dn(T), want, TOL)
         r.true('diag:self-unchanged', unchanged(A, sA))
